@@ -1,11 +1,13 @@
 #!/bin/bash
-# tools/with_patch.sh <patch.diff> <command...>: apply a patch to /repo, run the command, always revert.
+# tools/with_patch.sh <patch.diff> <command...>: apply a patch to /repo, run the command in /verif, always revert.
 set -u
-P="$1"; shift
+P="$(realpath "$1")"; shift
 cd /repo || exit 2
-if ! git diff --quiet; then echo "/repo is dirty; refusing" >&2; exit 2; fi
-git apply "$P" || { echo "patch does not apply" >&2; exit 2; }
-trap 'git -C /repo checkout -- . ; git -C /repo clean -fdq -e "*.pyc" edb tests 2>/dev/null' EXIT
+if [ -n "$(git status --porcelain --untracked-files=no)" ]; then echo "/repo is dirty; refusing" >&2; exit 2; fi
+HEAD0=$(git rev-parse HEAD)
+restore() { git -C /repo reset -q --hard "$HEAD0"; }
+trap restore EXIT
+git apply "$P" 2>/dev/null || git apply --3way "$P" || { echo "patch does not apply" >&2; exit 2; }
 cd /verif
 "$@"
 rc=$?
